@@ -27,6 +27,8 @@ type MemDevice struct {
 	OnWrite func(off int64, p []byte)
 	// OnRead is called (without the lock) before a read is served.
 	OnRead func(off int64, n int)
+	// FailRead, when set, is consulted before every read.
+	FailRead func(off int64, n int) error
 }
 
 // DevWrite is one WriteAt call.
@@ -43,6 +45,11 @@ func (d *MemDevice) ReadAt(p []byte, off int64) (int, error) {
 	}
 	d.mu.Lock()
 	defer d.mu.Unlock()
+	if f := d.FailRead; f != nil {
+		if err := f(off, len(p)); err != nil {
+			return 0, err
+		}
+	}
 	if off < 0 || off > int64(len(d.Data)) {
 		return 0, fmt.Errorf("memdevice: read at %d out of range", off)
 	}
